@@ -216,7 +216,12 @@ Upd(hh, pre, e, post) ==
                        \* (the pool's own marker is consulted too: the monitor does not always know an owner - a request whose
                        \*  idle candidates had all expired is one, but expiry is only known within a real-time bracket)
                        !.own = IF ~usableAny /\ ~infl /\ ~(e.o \in 1..Len(pre.cing) /\ pre.cing[e.o]) /\ e.res # "Panicked" THEN @ \cup {e.r} ELSE @,
-                       !.att = IF e.h2 /\ ~usableAny /\ ~infl /\ e.res # "Panicked" THEN @ \cup {e.r} ELSE @]
+                       \* owners: no usable idle connection and no attempt known to be in flight - or, when expiry leaves that open,
+                       \* the pool's marker newly set by this very Issue; never a request that found the marker already set (a standby)
+                       !.att = IF /\ e.h2 /\ e.res # "Panicked"
+                                  /\ ~(e.o \in 1..Len(pre.cing) /\ pre.cing[e.o])
+                                  /\ ((~usableAny /\ ~infl) \/ (e.o \in 1..Len(post.cing) /\ post.cing[e.o]))
+                               THEN @ \cup {e.r} ELSE @]
     [] e.e = "Poll" ->
          LET ownDial == {d \in 1..NConnO(pre) : pre.conn[d].by = e.r /\ d # e.c /\ pre.conn[d].dial \in {"connecting", "handshaking"}}
              \* pre-empted: served by a connection that is not its own dial while its own attempt is unfinished
